@@ -2,6 +2,7 @@ package progen
 
 import (
 	"fmt"
+	"strings"
 )
 
 // Rand is a splitmix64 stream; every draw of a program comes from one of these.
@@ -681,7 +682,7 @@ func genOnce(r *Rand, pkg string, prof Profile) *Spec {
 		g.sp.Injectors = append(g.sp.Injectors, inj)
 	}
 	// engine B: one more file composes the first file's generated injector into a larger one
-	if prof.AdversarialNames && len(g.sp.Injectors) > 0 && r.Chance(1, 4) {
+	if prof.AdversarialNames && len(g.sp.Injectors) > 0 && strings.HasPrefix(g.sp.Injectors[0].Name, "Init") && r.Chance(1, 3) {
 		in := &g.sp.Injectors[0]
 		in.File = 0
 		if t := &g.sp.Types[in.Ret]; t.Kind != KCtx {
